@@ -22,6 +22,9 @@ CHECKS = {
  "C10": dict(tech="TLA+ L1 language machine: scope model (known frames, ambiguity, arity) in Prql.tla; every ill-formed behaviour of PrqlMC replayed; acceptance of an ill-formed program rejected by TLC (PrqlTrace)",
     text="every program the bounded model marks ill-formed (reference to a dropped column, ambiguous bare name after join, arity mismatch) must make prqlc::compile return Err; every well-formed one must compile",
     ref="DESIGN.md section 4 C10"),
+ "C15": dict(tech="TLA+ commuting-diagram model of the staged API (Stages.tla); all paths source->SQL|error with bounded JSON round trips enumerated by TLC (StagesMC), walked through the real API and validated by TLC (StagesTrace)",
+    text="every path of the API graph (parse, json::from_pl/to_pl, pl_to_rq, json::from_rq/to_rq, rq_to_sql, compile; each JSON loop 0..2 times) is walked for every source x configuration; the diagram must commute at every node (value equality of trees, byte equality of JSON and SQL, same error)",
+    ref="DESIGN.md section 4 C15", note="trusted: TLC; pv's artefact interning (PartialEq of ModuleDef / RelationalQuery, byte equality of strings); errors compared by code, reason, span, hints"),
  "C16": dict(tech="TLA+ monitor of RQ well-formedness (Rq.tla: definition-before-use, unique ids, visibility, declaration order, from..select shape, arity); walks of the RQs returned by prqlc::pl_to_rq trace-validated by TLC (RqTrace)",
     text="trace validation: for every program of the L1 generators (bounded-exhaustive + slot models + random, declared and open schemas), hand-written nested shapes and the repository's queries that the resolver accepts, the walk of the returned RQ must be a behaviour of the monitor whose enabling conditions are the property's invariants",
     ref="DESIGN.md section 4 C16", note="trusted: TLC; lib/rqwalk.py (projection of the public serde form of RelationalQuery to events; self-tested by breaking each invariant in a recorded walk)"),
